@@ -685,7 +685,7 @@ impl Monitor for C19 {
             _ => {
                 let xhtml_share = rng.chance(3, 20);
                 let mut g = Gen { rng, budget: 0, xhtml_share };
-                g.budget = *g.rng.pick(&[3, 8, 16, 30]);
+                g.budget = if crate::engine::legs_mode() { 5 } else { *g.rng.pick(&[3, 8, 16, 30]) };
                 let mut scope = gen::Scope::new();
                 let root = g.element(1, &mut scope);
                 let a = match g.rng.below(4) {
